@@ -529,6 +529,9 @@ func cmdargsRandom(rnd *rand.Rand) (row *cmdargsRow, items []cmdargsItem) {
 	nitems := 0
 	if !stop {
 		nitems = rnd.Intn(13)
+		if rnd.Intn(50) == 0 {
+			nitems = 40 + rnd.Intn(60) // a command with dozens of arguments of every kind
+		}
 	}
 	items = []cmdargsItem{}
 	for i := 0; i < nitems; i++ {
